@@ -51,12 +51,31 @@ Lemma gri_inv sp c ri : gen_routing_info sp c = Ok ri ->
 Proof.
   unfold gen_routing_info. intros H.
   destruct (Z.of_nat (length (c_nis c)) =? 0) eqn:E0; [discriminate|].
-  inv_bind H. unfold mk_map in E3.
-  match type of E3 with (if ?b then _ else _) = _ => destruct b eqn:Eo; [|discriminate] end.
+  inv_bind H.
+  match goal with E : mk_map _ = Ok _ |- _ => unfold mk_map in E;
+    match type of E with (if ?b then _ else _) = _ => destruct b eqn:Eo; [|discriminate] end end.
   inversion H; subst; clear H. unfold ri_offset. cbn [ri_num_ep ri_id_bits ri_tables ri_routes ri_sam ri_xy].
   repeat split; try lia; auto.
-  - intros Ha. rewrite Ha in E1. exact E1.
-  - intros Ha. rewrite Ha in E2. exact E2.
+  - intros Ha. rewrite Ha in *. match goal with E : bind (check_identifiers _ _) _ = Ok _ |- _ => inv_bind E; exact E end.
+  - intros Ha. rewrite Ha in *. match goal with E : mapM _ (c_nis c) = Ok _ |- _ => exact E end.
+Qed.
+
+(* Network.check_identifiers: what every accepted network satisfies *)
+Lemma check_identifiers_ok names what u : check_identifiers names what = Ok u -> nodupb str_eqb (map snake_to_camel names) = true.
+Proof. unfold check_identifiers. destruct (nodupb _ _); [reflexivity|discriminate]. Qed.
+Lemma gri_names sp c ri : gen_routing_info sp c = Ok ri ->
+  nodupb str_eqb (map snake_to_camel (map enum_name (c_nis c) ++ ["num_endpoints"])) = true /\
+  (d_algo (c_desc c) = ID -> nodupb str_eqb (map snake_to_camel (map (fun r => cr_name r +++ "_map") (c_rts c))) = true) /\
+  nodupb str_eqb (map snake_to_camel (map (fun e => snd (snd e)) (ri_sam ri))) = true.
+Proof.
+  unfold gen_routing_info. intros H.
+  destruct (Z.of_nat (length (c_nis c)) =? 0) eqn:E0; [discriminate|].
+  inv_bind H. inversion H; subst; clear H. cbn [ri_sam].
+  split; [|split].
+  - match goal with E : check_identifiers (map enum_name _ ++ _) _ = Ok _ |- _ => exact (check_identifiers_ok _ _ _ E) end.
+  - intros Ha. rewrite Ha in *. match goal with E : bind (check_identifiers _ _) _ = Ok _ |- _ => inv_bind E end.
+    match goal with E : check_identifiers (map (fun r => cr_name r +++ "_map") _) _ = Ok _ |- _ => exact (check_identifiers_ok _ _ _ E) end.
+  - match goal with E : check_identifiers (map (fun e => snd (snd e)) _) _ = Ok _ |- _ => exact (check_identifiers_ok _ _ _ E) end.
 Qed.
 
 (* ------------------------------------------------------------------ compile, taken apart *)
